@@ -86,8 +86,52 @@ fn many_versions_delete(report: &mut Report) {
     many_versions_restore_all(report, "delete:harmed-kept-version-many-versions", "delete b0003", work.path(), &arch, &snaps, &keep);
 }
 
+
+/// Directed (real code + the property's own oracles): two files stored as three blocks each that share their
+/// FIRST and LAST block and differ in the middle (cloned images with a common header and common padding), next
+/// to each other in path order, plus small files sharing a combined block; delete the older version and collect
+/// garbage: every block the kept version refers to is still there and it restores exactly.
+fn shared_ends_delete(report: &mut Report) {
+    let work = tempfile::tempdir().unwrap();
+    let (src, arch) = (work.path().join("src"), work.path().join("arch"));
+    std::fs::create_dir(&src).unwrap();
+    let block = 64usize;
+    let part = |c: u8| vec![c; block];
+    std::fs::write(src.join("disk1.img"), [part(b'H'), part(b'1'), part(b'Z')].concat()).unwrap();
+    std::fs::write(src.join("disk2.img"), [part(b'H'), part(b'2'), part(b'Z')].concat()).unwrap();
+    std::fs::write(src.join("disk3.img"), [part(b'H'), part(b'3'), part(b'3'), part(b'Z')].concat()).unwrap();
+    std::fs::write(src.join("note-a"), b"small a").unwrap();
+    std::fs::write(src.join("note-b"), b"small b").unwrap();
+    create_archive(&arch);
+    let p = BackupParams { max_entries_per_hunk: 1000, max_block_size: block, small_file_cap: 16, owner: true, exclude: vec![] };
+    let b0 = real_backup(&arch, &src, &p, IceptConfig::default());
+    std::fs::write(src.join("note-a"), b"small a, edited").unwrap();
+    let b1 = real_backup(&arch, &src, &p, IceptConfig::default());
+    let snap = observe(&src);
+    report.case("shared-ends-delete", true);
+    report.hit("directed:multi-block-files-sharing-first-and-last-block");
+    let case = json!({"directed": "three-block files sharing first and last block, differing in the middle", "max_block_size": block});
+    if !b0.result.starts_with("result ok") || !b1.result.starts_with("result ok") {
+        return;
+    }
+    let dry = real_delete(&arch, &[0], true, false, IceptConfig::default());
+    let real = real_delete(&arch, &[0], false, false, IceptConfig::default());
+    let gc = real_delete(&arch, &[], false, false, IceptConfig::default());
+    let (post, _) = abstract_archive(&arch);
+    let referenced = referenced_of(&post, &all_bands(&post));
+    let present = present_blocks(&post);
+    if let Some(h) = referenced.difference(&present).next() {
+        report.oracle_fail("delete:referenced-block-removed", case.clone(), "a block referenced by a remaining version is gone", json!({"block": h, "dry": trunc(&dry.result), "delete": trunc(&real.result), "gc": trunc(&gc.result)}));
+    }
+    let (rr, robs) = restore_observe(&arch, work.path(), &Sel::Band(1), "shared");
+    if !rr.result.starts_with("result ok") || !rr.events.is_empty() || crate::c01::tree_diff(&snap, &robs).is_some() {
+        report.oracle_fail("delete:kept-version-harmed", case.clone(), "the kept version no longer restores exactly after the older one was deleted", json!({"result": trunc(&rr.result), "events": rr.events.iter().take(3).collect::<Vec<_>>()}));
+    }
+}
+
 pub fn run(tier: &str, seed: u64, report: &mut Report) {
     many_versions_delete(report);
+    shared_ends_delete(report);
     let thorough = tier == "thorough";
     let n_scen = if thorough { 12 } else { 3 };
     for sidx in 0..n_scen {
